@@ -17,6 +17,9 @@ EXPLANATION = (
 EXPLANATION += (
     ' A reference or slice made from a guarded pointer (from_raw_parts) escapes like the pointer itself: its lifetime is unchecked.'
 )
+EXPLANATION += (  # round-3 supplement
+    " A pointer computed by a closure that reads through a captured guard carries that guard's token. M4 = C15.M6: lengths that bound an element loop are read under the locks the loop holds."
+)
 ASSUMPTIONS = [
     "a pointer into the list buffer is valid only while the list's mutex is held (another thread's push may reallocate)",
     "taint is flow-insensitive for propagation and flow-sensitive (guard liveness dataflow) for the use-after-unlock test",
